@@ -1,4 +1,5 @@
 """C10 Forward references: geometry is independent of document order (mechanisms)."""
+import re
 from sa import rules as R
 from sa.prog import P, Callee, op_place, op_const, const_str
 
@@ -91,6 +92,7 @@ def run(prog, chk):
     chk.rule(unknown_ref_is_error, prog, chk)
     chk.rule(registration, prog, chk)
     chk.rule(registry_discipline, prog, chk)
+    chk.rule(lookups_read_current_state, prog, chk)
     chk.rule(registration_keys_agree, prog, chk)
     from props import C17, C15, C01_loops, C06
     chk.rule(C17.depth_pairing, prog, chk)
@@ -320,6 +322,21 @@ def registry_discipline(prog, chk):
                 continue
             other.append(f"a condition at {fe.where(a)}")
     chk.ob(not other, "A13.registry", "forget_element:unconditional", fe.where(rem[0]), "forget_element removes the entry whenever the element has an id: the removal depends on nothing else", f"the removal in forget_element also depends on {other[0] if other else ''}: a deferred element can stay registered in its provisional form, and an earlier sibling that refers to it is resolved against that - wrong position, wrong extent")
+
+
+def lookups_read_current_state(prog, chk):
+    """what a reference resolves to is read from the registry as it is now: the lookups take `&self`, and the context
+    has no interior-mutable storage (Cell / RefCell / Mutex / OnceCell ..) other than the random generator in which a
+    lookup could remember an answer.  A remembered box outlives the change (a later loop pass, a retry, an element with
+    an evaluated id) that makes it wrong"""
+    a = prog.adt("svgdx::context::TransformerContext")
+    fields = (a.get("variants") or [{}])[0].get("fields", [])
+    if not fields:
+        chk.anchor_missing("A13.registry", "fields of TransformerContext not found")
+        return
+    cells = [(f["name"], f["ty"]) for f in fields if re.search(r"(^|[<, ])std::(cell::(RefCell|Cell|OnceCell|UnsafeCell|LazyCell)|sync::(Mutex|RwLock|OnceLock|LazyLock|atomic::))", f["ty"])]
+    extra = [(n_, t_) for (n_, t_) in cells if not ("rand" in t_ or "Lcg" in t_ or "Pcg" in t_ or "Rng" in t_)]
+    chk.ob(not extra, "A13.registry", "context:interior-state", f"{a.get('file')}:{a.get('line')}", f"the transformer context has no interior-mutable field besides the random generator ({len(fields)} fields)", f"TransformerContext has interior-mutable field(s) {[n_ + ': ' + t_[:70] for n_, t_ in extra]}: functions that take `&self` (get_element_bbox, get_element ..) can remember what they answered - a box computed for one state of the registry is returned for another (an id produced by an expression in a loop, an element placed on a retry)")
 
 
 def registration(prog, chk):
